@@ -56,6 +56,10 @@ CHECKS["C18"] = dict(engine="X", technique="CrossHair/z3 exhausts the bounded sp
                      text="Bounded exhaustive case analysis driven by the solver: every combination of hierarchy shape (single, dataclass child, plain child, hand-written __init__, non-dataclass, three levels), decorator arguments (init/kw_only on parent and child), field form of every field (plain, default, field(default/init=False/kw_only/default_factory), ClassVar, InitVar, KW_ONLY marker, property) and whether a child field overrides a parent field; oracle = inspect.signature of the class built by CPython's dataclasses from the same source (no reference model).",
                      note="The inputs are programs: nothing value-symbolic survives compile(); the engine only decides which finite-domain choices are feasible and that none is left unexplored. Known finding: child fields that override parent fields with a form changing their participation in __init__ (region excluded).")
 
+CHECKS["C15"] = dict(engine="X", technique=X, design="§4 C15",
+                     text="Bounded symbolic model checking of the gates through which analysed code could run: _load_module_path with a symbolic file suffix and symbolic allow/force flags (inspection only if forced, or allowed for a non-.py/.pyi file, else LoadingError); GriffeLoader.load / resolve_aliases(external) / expand_wildcards(external) when the package is not on disk (a dynamic import is attempted iff inspection is allowed or forced, and for external packages only on request); dynamic_import/sys_path under every fault schedule of importlib.import_module and getattr (return, Exception, ImportError, SystemExit, KeyboardInterrupt at each attempt): sys.path restored to the identical list, failures surface as ImportError. The list of callers of dynamic_import / inspect / import_module is re-derived from the source at every run and the check fails closed (exit 3) if a new caller appears.",
+                     note="Gate property, not a whole-program proof: it shows code can only be executed through the listed gates under the stated flag conditions; the environment (finder, importlib) is stubbed. No real package is imported.")
+
 NOT_APPLICABLE = [
     {"property_id": "C17", "reason": "static-vs-dynamic agreement needs importlib/inspect on live objects of concrete executable modules: nothing symbolic survives the import boundary, so a solver could only enumerate program texts (enumeration, not solving). See DESIGN.md §5."},
 ]
